@@ -778,6 +778,15 @@ class LibCalls:
         con = e.reg.find_contract(name)
         if con is not None:
             return e.apply_contract(con, None, args, kwargs, st, node, None)
+        if name.endswith(".keys") and not args:
+            # keys() of a module-level dict literal with constant string keys (e.g. supported_types): the finite set of those strings
+            mn, an = name[:-5].rsplit(".", 1)
+            m = e.src.modules.get(mn)
+            node0 = m.assigns.get(an) if m else None
+            if isinstance(node0, ast.Dict) and node0.keys and all(isinstance(kx, ast.Constant) and isinstance(kx.value, str) for kx in node0.keys):
+                x = z3.Const(fresh_name("k"), e.sort(STR))
+                self.use(f"module-level table {an}: its key set is the set of string literals written in the source")
+                return [(st, Val(("set", STR), z3.Lambda([x], z3.Or([x == e.const_val(kx.value).z for kx in node0.keys]))))]
         if name in ("time.perf_counter", "time.time", "time.monotonic"):
             self.use("time.perf_counter()/time.time(): an arbitrary finite double")
             v = e.fresh(FLOAT, "t")
@@ -910,6 +919,9 @@ class LibCalls:
         for n in names:
             t = d.field_type(n)
             if t is None:
+                fd_ = e._field_decl(cname, n)        # declared on a base class of the sidecar's class model
+                t = fd_[1] if fd_ is not None else None
+            if t is None:
                 raise Unsupported(f"dataclass field {cname}.{n} not declared in the class model", node, e.path)
             if n in vals:
                 v = vals[n]
@@ -1010,4 +1022,4 @@ class LibCalls:
 BUILTIN_EXC_NAMES = {"Exception", "RuntimeError", "ValueError", "TypeError", "KeyError", "IndexError", "OSError",
                      "ConnectionError", "NotImplementedError", "AssertionError", "KeyboardInterrupt", "StopIteration",
                      "AttributeError", "ConnectionResetError", "BrokenPipeError", "TimeoutError", "ZeroDivisionError",
-                     "OverflowError", "UnicodeDecodeError", "UnicodeEncodeError", "LookupError", "ArithmeticError"}
+                     "OverflowError", "UnicodeDecodeError", "UnicodeEncodeError", "LookupError", "ArithmeticError", "RecursionError", "FileNotFoundError"}
